@@ -100,7 +100,10 @@ def run(c):
     from checks import c01_common as c1
     fws = c1.make_full_workspace(os.path.join(c.work, "fws"), user_dict=False)
     n_sh, n_sops = (24, 150) if quick else (300, 300)
-    sst = sc.stock_monitor_check(c, "C02", monitor, [sc.gen_stock_history(c.rng, n_sops) for _ in range(n_sh)], exe, fws,
+    swd = sc.switcher_directed()
+    if quick:
+        swd = c.rng.sample(swd, 6)
+    sst = sc.stock_monitor_check(c, "C02", monitor, swd + [sc.gen_stock_history(c.rng, n_sops) for _ in range(n_sh)], exe, fws,
                                  "WellFormed(view)")
     # …and the table translator with the phrase encoder and a live user dictionary (cangjie5's component list): candidates are
     # learnt from commits in a row and deleted again, so the menu under the highlight is rebuilt between two reads
